@@ -136,6 +136,10 @@ F14_REPLAY = dict(kind='lay', source=F14_SRC, bad_exit=[134, 139, -6, -11, 101],
 VALUE_CLASSES = ['nil', 'bool', 'channel', 'class', 'fun', 'number', 'string', 'list', 'tuple', 'map', 'iter', 'closure', 'method', 'native_fun']
 
 
+F64_REPLAY = dict(kind='lay', source='class Object {}\n', bad_exit=[101, 134, -6], bad_re=r'panicked at',
+                  note='the implicit superclass Object resolves to the class being declared: it inherits from itself')
+
+
 @obligation('C16.K3.op_inherit_receivers', 'C16', programs=('vm',))
 def k3_inherit(res, tier):
     """op_inherit for any two stack values: it succeeds only for a superclass whose values are ordinary instances. The methods of the
@@ -155,7 +159,7 @@ def k3_inherit(res, tier):
 
     def m_inherit(e_, a, c):
         from .vmabs import object_of
-        e_.path_state['events'].append(('inherit', object_of(e_, a[2]).id))
+        e_.path_state['events'].append(('inherit', object_of(e_, a[2]).id, object_of(e_, a[0]).id))
         return UNIT
     e.model(r'^(laythe_core::)?(object::)?(class::)?Class::inherit$', m_inherit)
 
@@ -172,7 +176,10 @@ def k3_inherit(res, tier):
                 raise
             outcome = pe.kind
         inh = [x for x in e.path_state['events'] if x[0] == 'inherit']
-        for _, sid in inh:
+        for _, sid, subid in inh:
+            # meta_from_super needs a complete superclass (one whose own class statement has linked its meta class); the class being
+            # defined is not complete yet, so it must not be its own superclass
+            e.check(sid != subid, 'op_inherit: the class being defined is never handed to Class::inherit as its own superclass')
             # whatever route resolved the superclass (a class value, or the box a captured `super` lives in)
             for k in VALUE_CLASSES:
                 key = W.field_key('vm::Vm', ['builtin', 'primitives', k]) + '.id'
@@ -195,6 +202,8 @@ def k3_inherit(res, tier):
     for fd in res.findings:
         if 'never accepted as a superclass' in fd.key:
             fd.replay = F14_REPLAY
+        if 'its own superclass' in fd.key:
+            fd.replay = F64_REPLAY
 
 
 @obligation('C16.K1.signature_gate', 'C16', programs=('core',))
